@@ -21,7 +21,7 @@ import (
 func (c *Ctx) ruleDescend(rule string) {
 	n := 0
 	for _, named := range c.serializableTypes() {
-		root := c.methodFn(named, "ValidateCompatibility")
+		root := c.methodBody(named, "ValidateCompatibility")
 		if root == nil || len(root.Blocks) == 0 {
 			continue
 		}
@@ -32,7 +32,7 @@ func (c *Ctx) ruleDescend(rule string) {
 		// the method and the helpers on the same receiver it calls (two levels)
 		fns := []*ssa.Function{root}
 		seen := map[*ssa.Function]bool{root: true}
-		for depth := 0; depth < 2; depth++ {
+		for depth := 0; depth < 3; depth++ {
 			for _, f := range append([]*ssa.Function{}, fns...) {
 				for _, e := range c.M.Edges(f) {
 					if !seen[e.To] && strings.HasPrefix(c.M.Key(e.To), "schema."+tname+".") && e.To.Name() != "Unserialize" && e.To.Name() != "Validate" && e.To.Name() != "Serialize" {
@@ -47,14 +47,8 @@ func (c *Ctx) ruleDescend(rule string) {
 			if !ok {
 				return false
 			}
-			name := ""
-			var recv ssa.Value
-			if call.Call.IsInvoke() {
-				name, recv = call.Call.Method.Name(), call.Call.Value
-			} else if sc := call.Call.StaticCallee(); sc != nil && sc.Signature.Recv() != nil && len(call.Call.Args) > 0 {
-				name, recv = sc.Name(), call.Call.Args[0]
-			}
-			if name != "ValidateCompatibility" || recv == nil || len(fn.Params) == 0 {
+			name, recv, _, isOp := c.opCall(&call.Call)
+			if !isOp || name != "ValidateCompatibility" || recv == nil || len(fn.Params) == 0 {
 				return false
 			}
 			// the receiver of the call is reached from the method's own receiver (a field, an element of a field, the
@@ -84,7 +78,9 @@ func (c *Ctx) ruleDescend(rule string) {
 			}
 			wholeSchemaMode := false
 			for _, p := range f.Params[1:] {
-				if _, isBasic := p.Type().Underlying().(*types.Basic); !isBasic && (c.isSchemaType(p.Type()) || c.isSDKType(p.Type())) {
+				_, isBasic := p.Type().Underlying().(*types.Basic)
+				_, isMap := p.Type().Underlying().(*types.Map) // the set of object pairs under comparison is context, not a schema
+				if !isBasic && !isMap && (c.isSchemaType(p.Type()) || c.isSDKType(p.Type())) {
 					wholeSchemaMode = true
 				}
 			}
@@ -125,7 +121,19 @@ func (c *Ctx) ruleDescend(rule string) {
 				n++
 				cnt++
 				k := key(rule, c.M.Key(f), sprintf("schema-mode accept #%d has compared the children", cnt))
-				if hold[r.Block()] || gen(r.Block()) {
+				enteredBefore := false
+				for _, cond := range core.CondsAt(r.Block()) {
+					if ex, ok := cond.V.(*ssa.Extract); ok && ex.Index == 1 && cond.True {
+						if lk, ok := ex.Tuple.(*ssa.Lookup); ok && lk.CommaOk {
+							if _, isParam := lk.X.(*ssa.Parameter); isParam {
+								enteredBefore = true
+							}
+						}
+					}
+				}
+				if enteredBefore {
+					c.R.Ok(rule, k, c.M.InstrPos(r), "accepting return of a composite schema's compatibility check", "taken only where the pair (receiver, other) is found in the set of pairs the comparison has entered: its children are being, or have been, compared where it was entered (R-TERM checks that the set is handed round the whole comparison)")
+				} else if hold[r.Block()] || gen(r.Block()) {
 					c.R.Ok(rule, k, c.M.InstrPos(r), "accepting return of a composite schema's compatibility check", "every path to it passes a ValidateCompatibility call on a child (or the loop that makes it for every child)")
 				} else {
 					c.R.Bad(rule, k, c.M.InstrPos(r), "a composite schema accepts another schema without comparing the children",
